@@ -203,7 +203,15 @@ func runC18(rc *RC) {
 	rc.Spawn("noise", func() {
 		for i := 0; i < nStray; i++ {
 			simrt.Sleep(time.Duration(ch.Range("workload", 0, 30)) * 10 * time.Millisecond)
-			e.PeerWrite(fmt.Sprintf(`<presence from="never%d@conf.example.net/x"><x xmlns="http://jabber.org/protocol/muc#user"><item affiliation="none" role="participant"/></x></presence>`, i))
+			// well-formed XML whose muc#user payload may not decode: it comes from a room that was never joined and is not ours to judge
+			strayItem := []string{
+				`<item affiliation="none" role="participant"/>`,
+				`<item affiliation="founder" role="participant"/>`,
+				`<item affiliation="none" role="lurker"/>`,
+				`<item affiliation="none" role="participant" jid="@@not a jid@@"/>`,
+				`<item affiliation="none" role="participant"/><status code="many"/>`,
+			}[ch.Int("workload", 5)]
+			e.PeerWrite(fmt.Sprintf(`<presence from="never%d@conf.example.net/x"><x xmlns="http://jabber.org/protocol/muc#user">%s</x></presence>`, i, strayItem))
 			if ch.Chance("workload", 1, 2) {
 				e.PeerWrite(fmt.Sprintf(`<presence from="never%d@conf.example.net/x" type="unavailable"><x xmlns="http://jabber.org/protocol/muc#user"><item affiliation="none" role="none"/></x></presence>`, i))
 			}
@@ -337,6 +345,7 @@ func runC18(rc *RC) {
 			rc.Failf("C18.c6", "callback-for-unjoined-room", "HandleUserPresence was called for %s (%s), a room that was never joined", c.from, c.kind)
 		}
 	}
+	rc.Check("C18.c6", "session-ended-early", !e.ServeDone, "Serve returned %v while only presences of never-joined rooms, invitations and answers to our own calls were received", e.ServeErr)
 	// c7: each invitation reaches the callback exactly once
 	for i := 0; i < nInv; i++ {
 		rc.Evals["C18.c7"]++
